@@ -98,19 +98,21 @@ NoFile == <<-2>>
 H(c)   == c                   \* ideal hash
 
 \* declared descriptor: digest of the stream / of other content / of the prefix that has the
-\* declared size / none; size right, one more, one less (configurations keep it > 0), none
+\* declared size / none; size right, one more, one less (configurations keep it > 0), none.
+\* "baddig" is a digest string that does not validate (malformed, or an algorithm that is not
+\* available): d.Digest.Validate() != nil, which the code treats exactly like no digest.
 DDig  == CASE cf.decl \in {"right", "sizeplus", "sizeminus", "digonly"} -> H(Src)
            [] cf.decl = "wrongdig" -> H(Other)
            [] cf.decl = "prefix" -> H(SubSeq(Src, 1, cf.len - 1))
            [] OTHER -> NoDig
-DSize == CASE cf.decl \in {"right", "wrongdig", "sizeonly"} -> cf.len
+DSize == CASE cf.decl \in {"right", "wrongdig", "sizeonly", "baddig"} -> cf.len
            [] cf.decl \in {"sizeplus", "sizeonlyplus"} -> cf.len + 1
            [] cf.decl \in {"sizeminus", "sizeonlyminus", "prefix"} -> cf.len - 1
            [] OTHER -> 0
 DigValid   == DDig # NoDig
 \* validDesc in BlobPut: (d.Size > 0 && digest valid) || (d.Size == 0 && d.Digest == zeroDig)
 ValidDesc  == (DSize > 0 /\ DigValid) \/ (DSize = 0 /\ DDig = H(<<>>))
-Mismatch   == (DigValid /\ DDig # H(Src)) \/ (DSize > 0 /\ DSize # cf.len)
+Mismatch   == (DigValid /\ DDig # H(Src)) \/ (DSize > 0 /\ DSize # cf.len) \/ cf.decl = "baddig"
 WellFormed == ~Mismatch
 \* what the target holds under the declared digest before the call
 Pre   == IF DigValid /\ cf.exists = "repo" THEN DDig ELSE NoFile
@@ -550,8 +552,10 @@ O1Strict == (Done /\ result = "ok") =>
 \* O2: a declared digest / size the stream does not match => error, nothing committed under it
 O2Strict == Mismatch => /\ (DigValid => Held(DDig) = Pre)
                         /\ (Done => result = "err")
+\* a declared digest that does not validate is taken for "no digest" (finding C05-2)
+IgnoredDigest == cf.decl = "baddig"
 O1 == MountShortcut \/ O1Strict
-O2 == MountShortcut \/ O2Strict
+O2 == MountShortcut \/ IgnoredDigest \/ O2Strict
 \* O3: conforming destination, no transient fault, well formed input => success.  Not demanded
 \* when the single PUT was refused and the source cannot be rewound (impossible for any client)
 O3 == (Done /\ WellFormed /\ nFault = 0 /\ (cf.seek \/ ~refused) /\ ~minViol) => result = "ok"
